@@ -128,7 +128,7 @@ def run_case(ctx, case):
         prog0 = first[2]
         for k, spec0 in enumerate(case["inputs"][:3]):
             ctx.count("follow_up_mask_checks")
-            nm = "In%d" % k
+            nm = arr.STANDIN_NAMES[k] if k < len(arr.STANDIN_NAMES) else "In%d" % k
             fo = arr.invoke(prog0, "FuzzyNot" if fuzzy_in else "Copy", "Follow%d" % k, {"InFieldName": nm})
             want_mask = list(spec0["mask"]) if spec0["mask"] is not None else [False] * len(spec0["data"])
             if fo.ok and isinstance(fo.value, numpy.ndarray):
